@@ -189,7 +189,26 @@ def check(ck):
         t = q.arg_origin(fds, n, c, "rpcid", 2)
         ck.require(t == ("param", "rpcid"), "C03.2", "jsonrpc.dumps: dump(rpcid)", "forwards Param(rpcid)",
                    "dumps forwards %s as id" % (prov.show(t) if t else "nothing"), q.loc(fds, n))
-    ck.floor("C03.2", 6)
+    # ... and the request text reaches the parser as it was received: a content-changing text operation between decoding the body
+    # and the dispatch (Unicode normalisation, case mapping, replace / translate / re.sub) rewrites the inside of JSON strings - an
+    # id "cafe\u0301" would be answered as "caf\u00e9"
+    fpost = prog.func(SRV, "SimpleJSONRPCRequestHandler.do_POST")
+    gpost = cfg_of(fpost)
+    dsp = [(n, c) for n in gpost.live_nodes() for c in node_calls(n) if call_name(c) == "_marshaled_dispatch"]
+    if not dsp:
+        raise AnalysisError("anchor vanished: _marshaled_dispatch call in do_POST")
+    CHANGING = ("normalize", "lower", "upper", "casefold", "title", "capitalize", "swapcase", "replace", "translate", "expandtabs",
+                "sub", "subn", "unescape", "unquote", "unquote_plus")
+    for (n, c) in dsp:
+        t = prov.origin(gpost, n, c.args[0]) if c.args else None
+        bad = []
+        if t is not None:
+            prov.contains(t, lambda x: bad.append(x) or False if (x[0] == "call" and ((x[1][0] == "attr" and x[1][2] in CHANGING) or
+                                                                  (x[1][0] == "global" and x[1][1] in CHANGING))) else False)
+        ck.require(not bad, "C03.2", "%s: the dispatcher gets the request text as received" % q.fn(fpost), "no content-changing text operation",
+                   "the text handed to the dispatcher went through `%s`: characters inside JSON strings are rewritten, so an id (or a "
+                   "parameter) made of such characters is not echoed as the same JSON value" % (prov.show(bad[0])[:70] if bad else ""), q.loc(fpost, n))
+    ck.floor("C03.2", 7)
 
     # ---- C03.3 batch loop -----------------------------------------------------------
     fu = prog.func(SRV, DISP + "._unmarshaled_dispatch")
@@ -396,7 +415,7 @@ def check(ck):
     # ---- C03.6 shared clauses --------------------------------------------------------------------------------------
     from rules import c05 as _c05, c02 as _c02
     common.import_rules(ck, _c05, {"C05.6": "C03.6"})
-    common.import_rules(ck, _c02, {"C02.6": "C03.6"})
+    common.import_rules(ck, _c02, {"C02.6": "C03.6", "C02.1": "C03.6"})      # (C02.1: what escapes the dispatcher is answered by the HTTP layer with id null)
     ck.floor("C03.6", 2)
 
 
